@@ -1023,7 +1023,7 @@ func rectsetBFS(r *ev.Run, maxDepth int, maxStates int) {
 // ---------------------------------------------------------------- main
 
 func main() {
-	r := ev.Start("C04", "exploration")
+	r := ev.Start("C04", "model_checking")
 	r.Rule("distinct_nontrivial = operand lists with at least two distinct operands on which union and intersection differ somewhere, expression trees with a non-empty result, smooth joins that add at least one point to the union, stack lists of length > 1, and distinct RectSet occupancies reached")
 	r.Assume("operands' own Contains is the ground truth (boolean formula is evaluated on it)", "dyadic coordinates make stacking offsets exact",
 		"smooth-join query points within 1e-9 of an operand surface are skipped", "RectSet boxes lie on the integer 3x3x3 cell grid")
